@@ -1,0 +1,6 @@
+//go:build !verif
+// +build !verif
+
+package transport
+
+func verifPoint(string, int64) {}
